@@ -103,6 +103,7 @@ void w_drive(Ctx& c, Ev& e, WLogger* l, const W_PAYLOAD& p) {
 	for (auto it = m.plan().begin(); it; ++it) it.remove();
 	const FSM::Instance& cm = m;
 	for (auto it = cm.plan().begin(); it; ++it) (void) it->origin;
+	{ auto cp = cm.plan(); (void) static_cast<bool>(cp); (void) cp.first(); (void) cp.last(); }   // (the non-const PlanT::first()/last() are declared but never defined)
 	m.succeed<A>(); m.fail<A>();
 	(void) m.previousTransition(); (void) m.replayTransition(1);
 #ifdef W_MANUAL
